@@ -53,7 +53,12 @@ LEVEL_TEXT = ("Seeded histories (incl. failing operations, range queries, "
               "held lazy sequences, set algebra) on stored containers, all "
               "families and kinds, both implementations, with seeded cache "
               "sweeps between operations and, for object keys, inside a "
-              "seeded key comparison of a seeded operation; outcomes and "
+              "seeded key comparison of a seeded operation (every cached "
+              "node, leaves only, parents only, a seeded subset, "
+              "cache.minimize(); optionally with everything off the path a "
+              "ghost beforehand; shape-directed ranges that must come back "
+              "to a left sibling subtree, swept at every comparison); "
+              "outcomes and "
               "contents compared with an un-evicted twin, no node may stay "
               "sticky after any operation and every clean node must be "
               "evictable; also run on the ASan+UBSan build. Sampling (the "
